@@ -37,6 +37,14 @@ class _VM:
         self.name = name
 
 
+class _Selected:
+    """arr[mask-of-its-own-values]: the values that survive the selection."""
+
+    def __init__(self, values, side):
+        self.values = list(values)
+        self.side = side
+
+
 class EvalInterp(ArrInterp):
     """ArrInterp + hooks for the pipeline entry points."""
 
@@ -59,6 +67,8 @@ class EvalInterp(ArrInterp):
             return None
         if name == "numpy.unique" and args and isinstance(args[0], AArr):
             return LabelVec([0] + self.labels_of(args[0]), args[0].side)
+        if name == "numpy.unique" and args and isinstance(args[0], _Selected):
+            return LabelVec(sorted(args[0].values), args[0].side)
         if name == "numpy.isin" and args and isinstance(args[0], LabelVec):
             from .arrdom import LabelKeys
 
@@ -156,6 +166,29 @@ class EvalInterp(ArrInterp):
             return LabelVec([x for x, k in zip(base.items, idx.items) if k], base.side)
         if isinstance(base, LabelVec) and isinstance(idx, int):
             return base.items[idx]
+        from .arrdom import AMask, LabelKeys
+
+        if isinstance(base, AArr) and isinstance(idx, AMask) and idx.of is base and idx.kind in ("isin", "notin", "nonzero", "zero", "eq"):
+            # the voxels of the array selected by a mask of its own values: only the set of values
+            # present matters to the callers (np.unique / membership tests)
+            values = [0] + self.labels_of(base)
+            keys = idx.detail
+            if isinstance(keys, LabelKeys):
+                if keys.casts:
+                    self.root.__dict__.setdefault("narrowed_tests", []).append((node, keys))
+                keys = keys.value
+            if idx.kind in ("isin", "notin"):
+                if not isinstance(keys, (list, tuple, set)):
+                    return super().subscript_hook(base, idx, node)
+                ks = set(keys)
+                values = [v for v in values if (v in ks) == (idx.kind == "isin")]
+            elif idx.kind == "nonzero":
+                values = [v for v in values if v != 0]
+            elif idx.kind == "zero":
+                values = [v for v in values if v == 0]
+            else:
+                values = [v for v in values if v == keys]
+            return _Selected(values, base.side)
         return super().subscript_hook(base, idx, node)
 
     def call_builtin(self, name, args, kwargs, node):
